@@ -418,6 +418,30 @@ func matchComponent(g *G, n int, opts map[string]string) *Out {
 			sigma := map[string]interface{}{}
 			c.Kind = "malformed"
 			c.P, c.F, c.Bs = p, g.instantiate(p, sigma, ctx, true), g.bindingsFor(ctx, sigma)
+			if g.chance(0.4) {
+				// invalid at one key (a property variable beside other keys) and merely non-matching at another (a
+				// constant key the message lacks, or a different value there): an error, whatever is visited first
+				bad := map[string]interface{}{g.pick(propKeyVars): g.scalar()}
+				msg := map[string]interface{}{}
+				for n := 1 + g.intn(3); n > 0; n-- {
+					k := g.pick(vocabKeys)
+					bad[k] = g.scalar()
+					switch g.intn(3) {
+					case 0: // absent from the message
+					case 1:
+						msg[k] = g.scalar()
+					default:
+						msg[k] = bad[k]
+					}
+				}
+				msg[g.pick(vocabKeys)+"z"] = g.scalar()
+				c.Kind = "invalid+nonmatching"
+				c.P, c.F = bad, msg
+				if g.chance(0.4) {
+					k := g.pick(vocabKeys)
+					c.P, c.F = map[string]interface{}{k: bad}, map[string]interface{}{k: msg}
+				}
+			}
 		}
 		emit(c)
 	}
